@@ -30,55 +30,46 @@ Section Lazy.
   Variable V : Type.
   Variable params : list string.
   Variable lazy_attrs : list string.
+  Variable init_ok : list (string * option V) -> bool.
 
   Notation mstate := (mstate V).
-  Notation setattr := (setattr V params).
-  Notation setattrs := (setattrs V params).
-  Notation construct := (construct V params lazy_attrs).
-  Notation run := (run V params).
+  Notation setattr := (setattr V params init_ok).
+  Notation setattrs := (setattrs V params init_ok).
+  Notation construct := (construct V params lazy_attrs init_ok).
+  Notation run := (run V params init_ok).
   Notation snapshot := (snapshot V params).
-  Notation clobber_free := (clobber_free V params lazy_attrs).
-
-  Definition mk (m : list string) (a : attrs V) (i : bool) (f : list (list (string * option V))) : mstate :=
-    {| missing := m; values := a; in_init := i; fired := f |}.
+  Notation clobber_free := (clobber_free V params lazy_attrs init_ok).
+  Notation built := (built V init_ok).
 
   (* what one assignment does, as three cases *)
   Lemma setattr_cases : forall (s : mstate) k v,
-      exists s', setattr s k v = Some s' /\
-                 values s' = bind V (values s) k v /\ in_init s' = in_init s /\
-                 ( (* nothing supplied *)
-                   ((v = None \/ mem k (missing s) = false) /\ missing s' = missing s /\ fired s' = fired s)
-                   \/ (* supplied, fires *)
-                   (v <> None /\ mem k (missing s) = true /\ missing s' = remove_key k (missing s) /\
-                    in_init s = false /\ missing s' = [] /\
-                    fired s' = fired s ++ [snapshot (bind V (values s) k v)])
-                   \/ (* supplied, does not fire *)
-                   (v <> None /\ mem k (missing s) = true /\ missing s' = remove_key k (missing s) /\
-                    (in_init s = true \/ missing s' <> []) /\ fired s' = fired s)).
+      let o := setattr s k v in
+      let s' := state_of o in
+      values s' = bind V (values s) k v /\ in_init s' = in_init s /\
+      ( (* nothing supplied *)
+        ((v = None \/ mem k (missing s) = false) /\ missing s' = missing s /\ fired s' = fired s /\ is_raised o = false)
+        \/ (* supplied, init_modules runs (and raises iff it rejects the configuration) *)
+        (v <> None /\ mem k (missing s) = true /\ missing s' = remove_key k (missing s) /\
+         in_init s = false /\ missing s' = [] /\
+         fired s' = fired s ++ [snapshot (bind V (values s) k v)] /\
+         is_raised o = negb (init_ok (snapshot (bind V (values s) k v))))
+        \/ (* supplied, does not fire *)
+        (v <> None /\ mem k (missing s) = true /\ missing s' = remove_key k (missing s) /\
+         (in_init s = true \/ missing s' <> []) /\ fired s' = fired s /\ is_raised o = false)).
   Proof.
     intros s k v. unfold LazyModule.setattr. destruct v as [x|]; simpl.
     - destruct (mem k (missing s)) eqn:M; simpl.
       + destruct (in_init s) eqn:I; simpl.
-        * eexists; split; [reflexivity|]. simpl. repeat split; try assumption.
-          right; right. repeat split; auto; discriminate.
+        * repeat split; try assumption. right; right. repeat split; auto; discriminate.
         * unfold is_fully_specified; simpl.
           destruct (remove_key k (missing s)) eqn:Rm; simpl.
           -- unfold init_modules_, validate, is_fully_specified; simpl.
-             eexists; split; [reflexivity|]. simpl. repeat split; auto.
-             right; left. repeat split; auto; discriminate.
-          -- eexists; split; [reflexivity|]. simpl. repeat split; auto.
+             destruct (init_ok _) eqn:Ok; simpl; repeat split; auto;
+               right; left; simpl; rewrite ?Ok; repeat split; auto; discriminate.
+          -- repeat split; auto.
              right; right. repeat split; auto; try discriminate. right. discriminate.
-      + eexists; split; [reflexivity|]. simpl. repeat split; auto.
-    - eexists; split; [reflexivity|]. simpl. repeat split; auto.
-  Qed.
-
-  Lemma setattr_total : forall (s : mstate) k v, exists s', setattr s k v = Some s'.
-  Proof. intros. destruct (setattr_cases s k v) as [s' [H _]]. eauto. Qed.
-
-  Lemma setattrs_total : forall ops (s : mstate), exists s', setattrs s ops = Some s'.
-  Proof.
-    induction ops as [|[k v] r IH]; intros s; simpl; [eauto|].
-    destruct (setattr_total s k v) as [s' H]. rewrite H. apply IH.
+      + repeat split; auto.
+    - repeat split; auto.
   Qed.
 
   (* the invariant of a constructed module *)
@@ -86,12 +77,12 @@ Section Lazy.
     in_init s = false /\
     ((missing s <> [] /\ fired s = []) \/ (missing s = [] /\ exists snap, fired s = [snap])).
 
-  Lemma setattr_inv : forall (s s' : mstate) k v, Inv s -> setattr s k v = Some s' -> Inv s'.
+  Lemma setattr_inv : forall (s : mstate) k v, Inv s -> Inv (state_of (setattr s k v)).
   Proof.
-    intros s s' k v [I H] E.
-    destruct (setattr_cases s k v) as [s2 [E2 [Hv [Hi C]]]]. rewrite E in E2; inversion E2; subst s2; clear E2.
+    intros s k v [I H].
+    destruct (setattr_cases s k v) as [Hv [Hi C]].
     split; [congruence|].
-    destruct C as [[_ [Hm Hf]] | [[Hn [Hmem [Hm [_ [Hnil Hf]]]]] | [Hn [Hmem [Hm [Hor Hf]]]]]].
+    destruct C as [[_ [Hm [Hf _]]] | [[Hn [Hmem [Hm [_ [Hnil [Hf _]]]]]] | [Hn [Hmem [Hm [Hor [Hf _]]]]]]].
     - rewrite Hm, Hf. exact H.
     - right. split; [assumption|]. destruct H as [[_ F] | [M _]].
       + rewrite F in Hf. simpl in Hf. eauto.
@@ -101,82 +92,91 @@ Section Lazy.
       rewrite M in Hmem; discriminate.
   Qed.
 
-  Lemma run_inv : forall ops (s s' : mstate), Inv s -> run s ops = Some s' -> Inv s'.
+  Lemma run_inv : forall ops (s : mstate), Inv s -> Inv (run s ops).
   Proof.
     unfold LazyModule.run.
-    induction ops as [|[k v] r IH]; intros s s' HI E; simpl in E.
-    - inversion E; subst; assumption.
-    - destruct (setattr s k v) as [s1|] eqn:E1; [|discriminate].
-      eapply IH; [eapply setattr_inv; eauto | exact E].
+    induction ops as [|[k v] r IH]; intros s HI; simpl; [assumption|].
+    apply IH. apply setattr_inv. assumption.
   Qed.
 
   (* in the constructor's loop nothing fires *)
-  Lemma setattrs_in_init : forall kvs (s s' : mstate),
-      in_init s = true -> fired s = [] -> setattrs s kvs = Some s' -> in_init s' = true /\ fired s' = [].
+  Lemma setattrs_in_init : forall kvs (s : mstate),
+      in_init s = true -> fired s = [] -> in_init (setattrs s kvs) = true /\ fired (setattrs s kvs) = [].
   Proof.
-    induction kvs as [|[k v] r IH]; intros s s' I F E; simpl in E.
-    - inversion E; subst; auto.
-    - destruct (setattr_cases s k v) as [s1 [E1 [_ [Hi C]]]]. rewrite E1 in E.
-      apply (IH s1 s'); [congruence| |exact E].
-      destruct C as [[_ [_ Hf]] | [[_ [_ [_ [Hb _]]]] | [_ [_ [_ [_ Hf]]]]]]; congruence.
+    induction kvs as [|[k v] r IH]; intros s I F; simpl; [auto|].
+    destruct (setattr_cases s k v) as [_ [Hi C]].
+    apply IH; [congruence|].
+    destruct C as [[_ [_ [Hf _]]] | [[_ [_ [_ [Hb _]]]] | [_ [_ [_ [_ [Hf _]]]]]]]; congruence.
   Qed.
 
-  Lemma construct_total_inv : forall args, exists s, construct args = Some s /\ Inv s.
+  Definition s_init : mstate := {| missing := lazy_attrs; values := []; in_init := true; fired := [] |}.
+
+  Lemma construct_inv : forall args, Inv (state_of (construct args)).
   Proof.
-    intros args. unfold LazyModule.construct.
-    destruct (setattrs_total (combine params args) (mk lazy_attrs [] true [])) as [s1 E1].
-    unfold mk in E1. rewrite E1.
-    destruct (setattrs_in_init (combine params args) (mk lazy_attrs [] true []) s1 eq_refl eq_refl E1) as [_ F].
-    unfold is_fully_specified; simpl.
+    intros args. unfold LazyModule.construct. fold s_init.
+    set (s1 := setattrs s_init (combine params args)).
+    destruct (setattrs_in_init (combine params args) s_init eq_refl eq_refl) as [_ F].
+    fold s1 in F. unfold is_fully_specified; simpl.
     destruct (missing s1) eqn:M.
     - unfold init_modules_, validate, is_fully_specified; simpl.
-      eexists; split; [reflexivity|]. split; simpl; [reflexivity|]. right. split; [reflexivity|].
-      rewrite F. simpl. eauto.
-    - eexists; split; [reflexivity|]. split; simpl; [reflexivity|]. left. split; [discriminate|assumption].
+      destruct (init_ok _); simpl; (split; simpl; [reflexivity|]); right; (split; [reflexivity|]);
+        rewrite F; simpl; eauto.
+    - simpl. split; simpl; [reflexivity|]. left. split; [discriminate|assumption].
   Qed.
 
-  (* T1: init_modules runs exactly once, exactly when the missing set is empty *)
+  (* T1: init_modules is called exactly once, exactly when the missing set is empty *)
   Lemma fires_exactly_once : forall args ops,
-      exists s0 s, construct args = Some s0 /\ run s0 ops = Some s /\
-                   (missing s = [] -> exists snap, fired s = [snap]) /\
-                   (missing s <> [] -> fired s = []).
+      let s := run (state_of (construct args)) ops in
+      (missing s = [] -> exists snap, fired s = [snap]) /\ (missing s <> [] -> fired s = []).
   Proof.
-    intros. destruct (construct_total_inv args) as [s0 [E0 I0]].
-    destruct (setattrs_total ops s0) as [s E].
-    exists s0, s. repeat split; auto.
-    - intros M. destruct (run_inv ops s0 s I0 E) as [_ [[N _] | [_ F]]]; [contradiction | assumption].
-    - intros N. destruct (run_inv ops s0 s I0 E) as [_ [[_ F] | [M _]]]; [assumption | contradiction].
+    intros. pose proof (run_inv ops _ (construct_inv args)) as [_ H]. fold s in H. split.
+    - intros M. destruct H as [[N _] | [_ F]]; [contradiction | assumption].
+    - intros N. destruct H as [[_ F] | [M _]]; [assumption | contradiction].
   Qed.
 
-  (* T2: every guarded use before completion raises; after completion it does not *)
+  (* T2: every guarded use before completion raises; after completion the guard lets it through *)
   Lemma use_iff_complete : forall (s : mstate),
       (missing s <> [] -> use V s = None) /\ (missing s = [] -> use V s = Some tt).
   Proof.
     intros s. unfold use, validate, is_fully_specified. destruct (missing s); split; intros; congruence.
   Qed.
 
-  (* T3: once complete, later assignments never rebuild *)
-  Lemma frozen_after_fire : forall ops (s s' : mstate),
-      missing s = [] -> run s ops = Some s' -> fired s' = fired s /\ missing s' = [].
+  (* T3: once complete, later assignments never call init_modules again *)
+  Lemma frozen_after_fire : forall ops (s : mstate),
+      missing s = [] -> fired (run s ops) = fired s /\ missing (run s ops) = [].
   Proof.
     unfold LazyModule.run.
-    induction ops as [|[k v] r IH]; intros s s' M E; simpl in E.
-    - inversion E; subst; auto.
-    - destruct (setattr_cases s k v) as [s1 [E1 [_ [_ C]]]]. rewrite E1 in E.
-      destruct C as [[_ [Hm Hf]] | [[_ [Hmem _]] | [_ [Hmem _]]]].
-      + destruct (IH s1 s' (eq_trans Hm M) E) as [A B]. split; congruence.
-      + rewrite M in Hmem; discriminate.
-      + rewrite M in Hmem; discriminate.
+    induction ops as [|[k v] r IH]; intros s M; simpl; [auto|].
+    destruct (setattr_cases s k v) as [_ [_ C]].
+    destruct C as [[_ [Hm [Hf _]]] | [[_ [Hmem _]] | [_ [Hmem _]]]].
+    - destruct (IH _ (eq_trans Hm M)) as [A B]. split; congruence.
+    - rewrite M in Hmem; discriminate.
+    - rewrite M in Hmem; discriminate.
+  Qed.
+
+  (* T3': an assignment raises exactly when it completes the module with a configuration
+     init_modules rejects; afterwards the module is "fully specified", passes the validate()
+     guard, and is built from nothing *)
+  Lemma setattr_raises_iff : forall (s : mstate) k v,
+      Inv s ->
+      is_raised (setattr s k v) = true ->
+      let s' := state_of (setattr s k v) in
+      missing s' = [] /\ use V s' = Some tt /\ built s' = [] /\
+      exists snap, fired s' = [snap] /\ init_ok snap = false.
+  Proof.
+    intros s k v [_ HI] R. destruct (setattr_cases s k v) as [_ [_ C]].
+    destruct C as [[_ [_ [_ Hr]]] | [[_ [Hmem [_ [_ [Hnil [Hf Hr]]]]]] | [_ [_ [_ [_ [_ Hr]]]]]]]; try congruence.
+    rewrite R in Hr. symmetry in Hr. apply negb_true_iff in Hr.
+    destruct HI as [[_ F] | [M _]]; [|rewrite M in Hmem; discriminate].
+    rewrite F in Hf. simpl in Hf.
+    split; [assumption|]. split; [apply use_iff_complete; assumption|].
+    split; [unfold LazyModule.built; rewrite Hf; simpl; rewrite Hr; reflexivity|]. eauto.
   Qed.
 
   (* ---------------------------------------------------------------- T4 *)
   Variable vals : string -> option V.
-
-  (* an assignment agrees with the target configuration, or assigns None to a lazy attribute *)
-  Definition consistent (kv : string * option V) : Prop :=
-    snd kv = vals (fst kv) \/ (snd kv = None /\ mem (fst kv) lazy_attrs = true).
-
-  Definition target : list (string * option V) := map (fun k => (k, vals k)) params.
+  Notation consistent := (consistent V lazy_attrs vals).
+  Notation target := (target V params vals).
 
   Definition assigned (s : mstate) (k : string) : Prop := In k (map fst (values s)).
 
@@ -197,21 +197,22 @@ Section Lazy.
   Lemma snapshot_target : forall (a : attrs V),
       (forall k, In k params -> lookup V a k = vals k) -> snapshot a = target.
   Proof.
-    intros a H. unfold LazyModule.snapshot, target. apply map_ext_in. intros k Hk. rewrite H by assumption. reflexivity.
+    intros a H. unfold LazyModule.snapshot, LazyModule.target. apply map_ext_in. intros k Hk.
+    rewrite H by assumption. reflexivity.
   Qed.
 
   Definition covers (s : mstate) : Prop := forall k, In k params -> assigned s k.
 
   (* one consistent, non-clobbering assignment keeps K; if it fires, it fires with the target *)
-  Lemma setattr_K : forall (s s' : mstate) k v,
+  Lemma setattr_K : forall (s : mstate) k v,
       K s -> consistent (k, v) ->
       (v = None -> mem k lazy_attrs = true -> mem k (missing s) = true) ->
-      setattr s k v = Some s' ->
+      let s' := state_of (setattr s k v) in
       K s' /\ (forall k', assigned s k' -> assigned s' k') /\ assigned s' k /\
       (covers s -> fired s' = fired s \/ fired s' = fired s ++ [target]).
   Proof.
-    intros s s' k v HK HC Hcl E.
-    destruct (setattr_cases s k v) as [s2 [E2 [Hv [Hi C]]]]. rewrite E in E2; inversion E2; subst s2; clear E2.
+    intros s k v HK HC Hcl s'.
+    destruct (setattr_cases s k v) as [Hv [Hi C]]. fold s' in Hv, Hi, C.
     assert (Hass : forall k', assigned s k' -> assigned s' k').
     { intros k' A. unfold assigned in *. rewrite Hv. simpl. right; assumption. }
     assert (Hk : assigned s' k). { unfold assigned. rewrite Hv. simpl. left; reflexivity. }
@@ -232,7 +233,7 @@ Section Lazy.
           rewrite mem_remove_other; auto. }
     repeat split; auto.
     intros Hcov.
-    destruct C as [[_ [_ Hf]] | [[_ [_ [_ [_ [Hnil Hf]]]]] | [_ [_ [_ [_ Hf]]]]]]; auto.
+    destruct C as [[_ [_ [Hf _]]] | [[_ [_ [_ [_ [Hnil [Hf _]]]]]] | [_ [_ [_ [_ [Hf _]]]]]]]; auto.
     right. rewrite Hf. f_equal. f_equal. rewrite <- Hv. apply snapshot_target.
     intros k' Hp. destruct (HK' k' (Hass k' (Hcov k' Hp))) as [L | [_ Hm]]; [assumption|].
     rewrite Hnil in Hm. discriminate.
@@ -241,27 +242,32 @@ Section Lazy.
   Lemma covers_mono : forall (s s' : mstate), (forall k, assigned s k -> assigned s' k) -> covers s -> covers s'.
   Proof. unfold covers; auto. Qed.
 
-  Lemma run_K : forall ops (s s' : mstate),
-      K s -> covers s -> Forall consistent ops -> clobber_free s ops = true ->
-      run s ops = Some s' ->
-      K s' /\ covers s' /\ exists n, fired s' = fired s ++ repeat target n.
+  Lemma clobber_step : forall (s : mstate) k v r,
+      clobber_free s ((k, v) :: r) = true ->
+      (v = None -> mem k lazy_attrs = true -> mem k (missing s) = true) /\
+      clobber_free (state_of (setattr s k v)) r = true.
+  Proof.
+    intros s k v r H. simpl in H. split.
+    - intros Hn Hl. subst v. rewrite Hl in H. simpl in H.
+      destruct (mem k (missing s)); [reflexivity | simpl in H; discriminate].
+    - destruct v as [x|]; [exact H|].
+      destruct (mem k lazy_attrs && negb (mem k (missing s))); [discriminate | exact H].
+  Qed.
+
+  Lemma run_K : forall ops (s : mstate),
+      K s -> Forall consistent ops -> clobber_free s ops = true ->
+      K (run s ops) /\ (covers s -> covers (run s ops) /\ exists n, fired (run s ops) = fired s ++ repeat target n).
   Proof.
     unfold LazyModule.run.
-    induction ops as [|[k v] r IH]; intros s s' HK Hcov HF Hcl E; simpl in E.
-    - inversion E; subst. repeat split; auto. exists 0. simpl. rewrite app_nil_r. reflexivity.
+    induction ops as [|[k v] r IH]; intros s HK HF Hcl; simpl.
+    - split; [assumption|]. intros Hc. split; [assumption|]. exists 0. simpl. rewrite app_nil_r. reflexivity.
     - inversion HF as [|x l Hc HF']; subst.
-      simpl in Hcl.
-      destruct (setattr s k v) as [s1|] eqn:E1; [|discriminate].
-      assert (Hnb : v = None -> mem k lazy_attrs = true -> mem k (missing s) = true).
-      { intros Hn Hl. subst v. rewrite Hl in Hcl. simpl in Hcl.
-        destruct (mem k (missing s)); [reflexivity | simpl in Hcl; discriminate]. }
-      assert (Hcl' : clobber_free s1 r = true).
-      { destruct v as [x|].
-        - exact Hcl.
-        - destruct (mem k lazy_attrs && negb (mem k (missing s))); [discriminate | exact Hcl]. }
-      destruct (setattr_K s s1 k v HK Hc Hnb E1) as [HK1 [Hass [_ Hf]]].
-      destruct (IH s1 s' HK1 (covers_mono _ _ Hass Hcov) HF' Hcl' E) as [HK' [Hcov' [n Hn]]].
-      repeat split; auto.
+      destruct (clobber_step s k v r Hcl) as [Hnb Hcl'].
+      destruct (setattr_K s k v HK Hc Hnb) as [HK1 [Hass [_ Hf]]].
+      destruct (IH _ HK1 HF' Hcl') as [HK' Hrest].
+      split; [assumption|]. intros Hcov.
+      destruct (Hrest (covers_mono _ _ Hass Hcov)) as [Hcov' [n Hn]].
+      split; [assumption|].
       destruct (Hf Hcov) as [F | F]; rewrite F in Hn.
       + exists n; assumption.
       + exists (S n). rewrite Hn. rewrite <- app_assoc. reflexivity.
@@ -280,7 +286,7 @@ Section Lazy.
     { destruct v; [reflexivity|]. destruct (mem k lazy_attrs) eqn:L; [|reflexivity].
       rewrite (H k (or_introl eq_refl) L). reflexivity. }
     rewrite Hbad.
-    destruct (setattr_cases s k v) as [s1 [E1 [_ [_ C]]]]. rewrite E1.
+    destruct (setattr_cases s k v) as [_ [_ C]].
     apply IH; [assumption|].
     intros k' Hin Hl.
     assert (Hne : k <> k') by (intro; subst; contradiction).
@@ -288,13 +294,13 @@ Section Lazy.
       try rewrite mem_remove_other by assumption; apply H; auto; right; assumption.
   Qed.
 
-  Lemma setattrs_assigned : forall kvs (s s' : mstate),
-      setattrs s kvs = Some s' -> forall k, (In k (map fst kvs) \/ assigned s k) -> assigned s' k.
+  Lemma setattrs_assigned : forall kvs (s : mstate) k,
+      (In k (map fst kvs) \/ assigned s k) -> assigned (setattrs s kvs) k.
   Proof.
-    induction kvs as [|[k v] r IH]; intros s s' E k' H; simpl in *.
-    - inversion E; subst. destruct H; [contradiction | assumption].
-    - destruct (setattr_cases s k v) as [s1 [E1 [Hv _]]]. rewrite E1 in E.
-      apply (IH s1 s' E). destruct H as [[H | H] | H].
+    induction kvs as [|[k v] r IH]; intros s k' H; simpl in *.
+    - destruct H; [contradiction | assumption].
+    - destruct (setattr_cases s k v) as [Hv _].
+      apply IH. destruct H as [[H | H] | H].
       + right. subst. unfold assigned. rewrite Hv. simpl. left; reflexivity.
       + left; assumption.
       + right. unfold assigned in *. rewrite Hv. simpl. right; assumption.
@@ -307,114 +313,98 @@ Section Lazy.
     f_equal. apply IH. lia.
   Qed.
 
+  Lemma missing_shrinks : forall kvs (s : mstate) q,
+      mem q (missing (setattrs s kvs)) = true -> mem q (missing s) = true.
+  Proof.
+    induction kvs as [|[a b] r IH]; intros s q Hq; simpl in Hq; [assumption|].
+    pose proof (IH _ q Hq) as Hx.
+    destruct (setattr_cases s a b) as [_ [_ C]].
+    destruct C as [[_ [Hm' _]] | [[_ [_ [Hm' _]]] | [_ [_ [Hm' _]]]]]; rewrite Hm' in Hx; auto;
+      destruct (string_dec a q) as [->|Hne]; try (rewrite mem_remove_self in Hx; discriminate);
+      rewrite mem_remove_other in Hx; auto.
+  Qed.
+
   (* state after the constructor, for consistent arguments *)
   Lemma construct_K : forall args,
       NoDup params -> List.length args = List.length params ->
       Forall consistent (combine params args) ->
-      exists s, construct args = Some s /\ K s /\ covers s /\ (fired s = [] \/ fired s = [target]).
+      let o := construct args in
+      K (state_of o) /\ covers (state_of o) /\
+      ((fired (state_of o) = [] /\ is_raised o = false) \/
+       (fired (state_of o) = [target] /\ is_raised o = negb (init_ok target))).
   Proof.
-    intros args ND HL HF. unfold LazyModule.construct.
-    set (s0 := {| missing := lazy_attrs; values := []; in_init := true; fired := [] |}).
-    destruct (setattrs_total (combine params args) s0) as [s1 E1]. rewrite E1.
-    assert (HK0 : K s0) by (intros k A; inversion A).
-    (* run the loop as a sequence of consistent non-clobbering assignments; it cannot fire *)
-    assert (Hcl : clobber_free s0 (combine params args) = true).
+    intros args ND HL HF. unfold LazyModule.construct. fold s_init.
+    set (s1 := setattrs s_init (combine params args)).
+    assert (HK0 : K s_init) by (intros k A; inversion A).
+    assert (Hcl : clobber_free s_init (combine params args) = true).
     { apply construct_loop_clobber_free; [assumption|]. intros k _ Hl. exact Hl. }
-    (* K along the loop: generalised run_K without the covers hypothesis *)
-    assert (Hloop : forall kvs (s s' : mstate), K s -> Forall consistent kvs -> clobber_free s kvs = true ->
-                                               setattrs s kvs = Some s' -> K s').
-    { induction kvs as [|[k v] r IH]; intros s s' HKs HFs Hcs Es; simpl in Es.
-      - inversion Es; subst; assumption.
-      - inversion HFs as [|x l Hc HF']; subst. simpl in Hcs.
-        destruct (LazyModule.setattr V params s k v) as [sx|] eqn:Ex; [|discriminate].
-        assert (Hnb : v = None -> mem k lazy_attrs = true -> mem k (missing s) = true).
-        { intros Hn Hl. subst v. rewrite Hl in Hcs. simpl in Hcs.
-          destruct (mem k (missing s)); [reflexivity | simpl in Hcs; discriminate]. }
-        assert (Hcs' : clobber_free sx r = true).
-        { destruct v as [x|]; [exact Hcs|].
-          destruct (mem k lazy_attrs && negb (mem k (missing s))); [discriminate | exact Hcs]. }
-        destruct (setattr_K s sx k v HKs Hc Hnb Ex) as [HK1 _].
-        eapply IH; eauto. }
-    pose proof (Hloop _ _ _ HK0 HF Hcl E1) as HK1.
-    destruct (setattrs_in_init (combine params args) s0 s1 eq_refl eq_refl E1) as [_ F1].
+    destruct (run_K (combine params args) s_init HK0 HF Hcl) as [HK1 _].
+    unfold LazyModule.run in HK1. fold s1 in HK1.
+    destruct (setattrs_in_init (combine params args) s_init eq_refl eq_refl) as [_ F1]. fold s1 in F1.
     assert (Hcov1 : forall k, In k params -> In k (map fst (values s1))).
-    { intros k Hk. apply (setattrs_assigned _ _ _ E1). left. rewrite map_fst_combine by lia. assumption. }
+    { intros k Hk. apply (setattrs_assigned (combine params args) s_init). left.
+      rewrite map_fst_combine by lia. assumption. }
     unfold is_fully_specified; simpl.
     destruct (missing s1) eqn:M.
     - unfold init_modules_, validate, is_fully_specified; simpl.
-      eexists; split; [reflexivity|]. repeat split.
-      + intros k A. simpl in *. destruct (HK1 k A) as [L | [_ Hm]]; [left; assumption|].
-        rewrite M in Hm; discriminate.
-      + intros k Hk. unfold assigned; simpl. auto.
-      + right. simpl. rewrite F1. simpl. f_equal. apply snapshot_target.
-        intros k Hk. destruct (HK1 k (Hcov1 k Hk)) as [L | [_ Hm]]; [assumption|].
-        rewrite M in Hm; discriminate.
-    - eexists; split; [reflexivity|]. repeat split.
+      assert (Hsnap : snapshot (values s1) = target).
+      { apply snapshot_target. intros k Hk. destruct (HK1 k (Hcov1 k Hk)) as [L | [_ Hm]]; [assumption|].
+        rewrite M in Hm; discriminate. }
+      rewrite Hsnap.
+      destruct (init_ok target) eqn:Ok; simpl; repeat split;
+        try (intros k A; simpl in *; destruct (HK1 k A) as [L | [_ Hm]]; [left; assumption| rewrite M in Hm; discriminate]);
+        try (intros k Hk; unfold assigned; simpl; auto);
+        right; rewrite F1; simpl; auto.
+    - simpl. repeat split.
       + intros k A. destruct (HK1 k A) as [L | [Hl Hm]]; [left; exact L | right; split; [exact Hl | rewrite M in Hm; exact Hm]].
       + intros k Hk. unfold assigned; simpl. auto.
-      + left. simpl. assumption.
+      + left. simpl. auto.
   Qed.
 
-  (* T4a: eager construction with every lazy attribute given builds from the target *)
+  (* T4a: eager construction with every lazy attribute given calls init_modules on the target,
+     and raises exactly when init_modules rejects it *)
   Lemma eager_builds_target :
       NoDup params ->
       (forall k, mem k lazy_attrs = true -> In k params /\ vals k <> None) ->
-      exists s, construct (map vals params) = Some s /\ missing s = [] /\ fired s = [target].
+      let o := construct (map vals params) in
+      missing (state_of o) = [] /\ fired (state_of o) = [target] /\ is_raised o = negb (init_ok target).
   Proof.
-    intros ND HL.
+    intros ND HL o.
     assert (HF : Forall consistent (combine params (map vals params))).
     { apply Forall_forall. intros [k v] Hin. left. simpl.
       clear - Hin. induction params as [|p ps IH]; simpl in Hin; [contradiction|].
       destruct Hin as [H | H]; [inversion H; reflexivity | apply IH; assumption]. }
-    destruct (construct_K (map vals params) ND (map_length _ _) HF) as [s [E [HK [Hcov Hf]]]].
-    exists s. split; [assumption|].
-    destruct (construct_total_inv (map vals params)) as [s' [E' [_ HI]]]. rewrite E in E'; inversion E'; subst s'.
-    assert (M : missing s = []).
-    { destruct (missing s) as [|k r] eqn:M; [reflexivity|]. exfalso.
-      assert (Hm : mem k (missing s) = true) by (rewrite M; simpl; rewrite String.eqb_refl; reflexivity).
-      (* k is missing, so K says: its value is not the target unless lazy-and-missing; but missing
-         keys come from lazy_attrs and were assigned Some *)
-      (* missing s is a sub-multiset of lazy_attrs obtained by removals: show k lazy *)
-      assert (Hsub : forall (sA sB : mstate) kvs, setattrs sA kvs = Some sB ->
-                       forall q, mem q (missing sB) = true -> mem q (missing sA) = true).
-      { intros sA sB kvs. revert sA sB. induction kvs as [|[a b] r' IH]; intros sA sB Es q Hq; simpl in Es.
-        - inversion Es; subst; assumption.
-        - destruct (setattr_cases sA a b) as [sx [Ex [_ [_ C]]]]. rewrite Ex in Es.
-          pose proof (IH sx sB Es q Hq) as Hx.
-          destruct C as [[_ [Hm' _]] | [[_ [_ [Hm' _]]] | [_ [_ [Hm' _]]]]]; rewrite Hm' in Hx; auto;
-            destruct (string_dec a q) as [->|Hne]; try (rewrite mem_remove_self in Hx; discriminate);
-            rewrite mem_remove_other in Hx; auto. }
-      (* unfold construct to reach the loop state *)
-      unfold LazyModule.construct in E.
-      destruct (LazyModule.setattrs V params
-                  {| missing := lazy_attrs; values := []; in_init := true; fired := [] |}
-                  (combine params (map vals params))) as [s1|] eqn:E1; [|discriminate].
-      assert (Hms : missing s = missing s1).
-      { unfold is_fully_specified in E; simpl in E. destruct (missing s1) eqn:M1.
-        - unfold init_modules_, validate, is_fully_specified in E; simpl in E.
-          inversion E; subst; simpl; auto.
-        - inversion E; subst; simpl; auto. }
+    destruct (construct_K (map vals params) ND (map_length _ _) HF) as [HK [Hcov Hf]]. fold o in HK, Hcov, Hf.
+    pose proof (construct_inv (map vals params)) as [_ HI]. fold o in HI.
+    assert (M : missing (state_of o) = []).
+    { destruct (missing (state_of o)) as [|k r] eqn:M; [reflexivity|]. exfalso.
+      assert (Hm : mem k (missing (state_of o)) = true) by (rewrite M; simpl; rewrite String.eqb_refl; reflexivity).
+      set (s1 := setattrs s_init (combine params (map vals params))).
+      assert (Hms : missing (state_of o) = missing s1).
+      { unfold o, LazyModule.construct. fold s_init. fold s1.
+        unfold is_fully_specified; simpl. destruct (missing s1) eqn:M1.
+        - unfold init_modules_, validate, is_fully_specified; simpl.
+          destruct (init_ok (snapshot (values s1))); reflexivity.
+        - reflexivity. }
       rewrite Hms in Hm.
-      pose proof (Hsub _ _ _ E1 k Hm) as Hl. simpl in Hl.
+      pose proof (missing_shrinks _ s_init k Hm) as Hl. simpl in Hl.
       destruct (HL k Hl) as [Hin Hnn].
-      (* the loop assigned vals k <> None to k while k was missing, so it was removed *)
-      assert (Hrem : forall ps (sA sB : mstate), setattrs sA (combine ps (map vals ps)) = Some sB ->
-                       In k ps -> mem k (missing sB) = false).
-      { induction ps as [|p ps IH]; intros sA sB Es Hp; simpl in *; [contradiction|].
-        destruct (setattr_cases sA p (vals p)) as [sx [Ex [_ [_ C]]]]. rewrite Ex in Es.
+      assert (Hrem : forall ps (sA : mstate), In k ps -> mem k (missing (setattrs sA (combine ps (map vals ps)))) = false).
+      { induction ps as [|p ps IH]; intros sA Hp; simpl in *; [contradiction|].
+        destruct (setattr_cases sA p (vals p)) as [_ [_ C]].
         destruct (string_dec p k) as [->|Hne].
-        - assert (Hx : mem k (missing sx) = false).
+        - assert (Hx : mem k (missing (state_of (setattr sA k (vals k)))) = false).
           { destruct C as [[[Hn | Hn] [Hm' _]] | [[_ [_ [Hm' _]]] | [_ [_ [Hm' _]]]]].
             - congruence.
             - rewrite Hm'; assumption.
             - rewrite Hm'. apply mem_remove_self.
             - rewrite Hm'. apply mem_remove_self. }
-          destruct (mem k (missing sB)) eqn:Hb; [|reflexivity].
-          rewrite (Hsub _ _ _ Es k Hb) in Hx. discriminate.
-        - destruct Hp as [Hp | Hp]; [congruence|]. eapply IH; eauto. }
-      rewrite (Hrem params _ _ E1 Hin) in Hm. discriminate. }
+          destruct (mem k (missing (setattrs _ (combine ps (map vals ps))))) eqn:Hb; [|reflexivity].
+          rewrite (missing_shrinks _ _ k Hb) in Hx. discriminate.
+        - destruct Hp as [Hp | Hp]; [congruence|]. apply IH. assumption. }
+      unfold s1 in Hm. rewrite (Hrem params s_init Hin) in Hm. discriminate. }
     split; [assumption|].
-    destruct Hf as [F | F]; [|assumption].
+    destruct Hf as [[F _] | [F R]]; [|auto].
     destruct HI as [[N _] | [_ [snap Fs]]]; [contradiction | congruence].
   Qed.
 
@@ -424,19 +414,15 @@ Section Lazy.
   Lemma lazy_any_order_builds_target : forall args ops,
       NoDup params -> List.length args = List.length params ->
       Forall consistent (combine params args) -> Forall consistent ops ->
-      exists s0 s, construct args = Some s0 /\ run s0 ops = Some s /\
-                   (clobber_free s0 ops = true -> missing s = [] -> fired s = [target]).
+      let s0 := state_of (construct args) in
+      clobber_free s0 ops = true -> missing (run s0 ops) = [] -> fired (run s0 ops) = [target].
   Proof.
-    intros args ops ND HL HFa HFo.
-    destruct (construct_K args ND HL HFa) as [s0 [E0 [HK [Hcov Hf]]]].
-    destruct (setattrs_total ops s0) as [s E].
-    exists s0, s. repeat split; auto.
-    intros Hcl M.
-    destruct (run_K ops s0 s HK Hcov HFo Hcl E) as [_ [_ [n Hn]]].
-    destruct (construct_total_inv args) as [s0' [E0' I0]]. rewrite E0 in E0'; inversion E0'; subst s0'.
-    destruct (run_inv ops s0 s I0 E) as [_ [[N _] | [_ [snap Fs]]]]; [contradiction|].
+    intros args ops ND HL HFa HFo s0 Hcl M.
+    destruct (construct_K args ND HL HFa) as [HK [Hcov Hf]]. fold s0 in HK, Hcov, Hf.
+    destruct (run_K ops s0 HK HFo Hcl) as [_ Hrest]. destruct (Hrest Hcov) as [_ [n Hn]].
+    pose proof (run_inv ops s0 (construct_inv args)) as [_ [[N _] | [_ [snap Fs]]]]; [contradiction|].
     rewrite Fs in Hn.
-    destruct Hf as [F | F]; rewrite F in Hn; simpl in Hn.
+    destruct Hf as [[F _] | [F _]]; rewrite F in Hn; simpl in Hn.
     - destruct n as [|[|n]]; simpl in Hn; try discriminate. inversion Hn; subst. assumption.
     - destruct n; simpl in Hn; [|discriminate]. inversion Hn; subst. assumption.
   Qed.
@@ -448,8 +434,7 @@ Section StypeWiseInit.
   Variable supported : Enc -> list stype.
   Notation init := (stypewise_init Enc supported).
 
-  Definition key_ok (p : stype * Enc) : bool :=
-    stype_eqb (fst p) (stype_parent (fst p)) && stype_in (fst p) (supported (snd p)).
+  Notation key_ok := (key_ok Enc supported).
 
   Lemma init_some_iff : forall keys d,
       init keys d = (if forallb key_ok d then Some (filter (fun p => stype_in (fst p) keys) d) else None).
@@ -477,9 +462,7 @@ End StypeWiseInit.
 Section StypeWiseForward.
   Variable A : Type.
 
-  Definition part_ok (cnd : list (stype * list string)) (enc : stype -> list string -> option (list A))
-             (s : stype) (p : list A * list string) : Prop :=
-    assoc_stype cnd s = Some (snd p) /\ enc s (snd p) = Some (fst p) /\ List.length (fst p) = List.length (snd p).
+  Notation part_ok := (part_ok A).
 
   Lemma forward_fold : forall cnd fd enc sts xs0 ns0 xs ns,
       fold_left (fun (acc : option (list A * list string)) (s : stype) =>
